@@ -10,7 +10,11 @@ N1  "extract helper": a private function / method that is NOT in the inventory o
     and its `return e` statements become assignments to the call's target (an if/return chain becomes an if/else chain).
     A helper that cannot be inlined soundly (returns inside loops / try, *args, recursion, decorators other than
     staticmethod) is left alone.
-N2  `x = a if c else b`  ->  `if c: x = a` / `else: x = b`   (conditional expression on the right-hand side of an assignment).
+    A helper whose body is one `return <expr>` is substituted wherever it is called (also inside an `if` test); a tuple
+    returned into a tuple target becomes one assignment per element; a definition left without any reference is dropped.
+N2  `x = a if c else b`  ->  `if c: x = a` / `else: x = b`   (conditional expression on the right-hand side of an assignment,
+    also when it is the first-evaluated operand of the right-hand side:  `x = (a if c else b) > 0`).
+N3  `x = []` ; `for T in IT: x.append(E)`  ->  `x = [E for T in IT]`   (the loop spelling of a list comprehension).
 
 Nothing else is rewritten; line numbers of the surviving nodes are kept, inlined statements carry the line of the call.
 """
@@ -40,16 +44,90 @@ def inventory() -> Set[str]:
 
 # --------------------------------------------------------------------------------------------- N2
 
+def _first_ifexp(e: ast.expr) -> Optional[ast.IfExp]:
+    """the conditional expression that is evaluated first inside `e` and on every evaluation of it (leftmost operand chain:
+    left side of a binary operation / comparison, object of an attribute or subscript, operand of a unary operation)"""
+    while True:
+        if isinstance(e, ast.IfExp):
+            return e
+        if isinstance(e, ast.BinOp):
+            e = e.left
+        elif isinstance(e, ast.Compare):
+            e = e.left
+        elif isinstance(e, ast.UnaryOp):
+            e = e.operand
+        elif isinstance(e, (ast.Attribute, ast.Subscript, ast.Starred)):
+            e = e.value
+        elif isinstance(e, ast.Call) and isinstance(e.func, ast.Attribute):
+            e = e.func.value            # (a if c else b).method(..): the receiver is evaluated first
+        else:
+            return None
+
+
+def _subst_node(e: ast.AST, old: ast.AST, new: ast.AST) -> ast.AST:
+    if e is old:
+        return new
+    e2 = copy.copy(e)
+    for fld, val in ast.iter_fields(e):
+        if isinstance(val, ast.AST):
+            setattr(e2, fld, _subst_node(val, old, new))
+        elif isinstance(val, list):
+            setattr(e2, fld, [_subst_node(v, old, new) if isinstance(v, ast.AST) else v for v in val])
+    return e2
+
+
 class _IfExpAssign(ast.NodeTransformer):
     def visit_Assign(self, node: ast.Assign):
         self.generic_visit(node)
-        if isinstance(node.value, ast.IfExp) and len(node.targets) == 1 and isinstance(node.targets[0], (ast.Name, ast.Attribute)):
-            v = node.value
-            a = ast.Assign(targets=[copy.deepcopy(node.targets[0])], value=v.body, lineno=node.lineno, col_offset=node.col_offset)
-            b = ast.Assign(targets=[copy.deepcopy(node.targets[0])], value=v.orelse, lineno=node.lineno, col_offset=node.col_offset)
-            new = ast.If(test=v.test, body=[a], orelse=[b], lineno=node.lineno, col_offset=node.col_offset)
-            return ast.fix_missing_locations(new)
+        if len(node.targets) == 1 and isinstance(node.targets[0], (ast.Name, ast.Attribute)):
+            v = _first_ifexp(node.value)
+            if v is not None:
+                a = ast.Assign(targets=[copy.deepcopy(node.targets[0])], value=_subst_node(node.value, v, v.body),
+                               lineno=node.lineno, col_offset=node.col_offset)
+                b = ast.Assign(targets=[copy.deepcopy(node.targets[0])], value=_subst_node(node.value, v, v.orelse),
+                               lineno=node.lineno, col_offset=node.col_offset)
+                new = ast.If(test=v.test, body=[self.visit_Assign(a)] if _first_ifexp(a.value) is not None else [a],
+                             orelse=[self.visit_Assign(b)] if _first_ifexp(b.value) is not None else [b],
+                             lineno=node.lineno, col_offset=node.col_offset)
+                return ast.fix_missing_locations(new)
         return node
+
+
+# --------------------------------------------------------------------------------------------- N3
+
+def _loop_append_to_comprehension(tree: ast.Module) -> None:
+    """`x = []` immediately followed by `for T in IT: x.append(E)`  ->  `x = [E for T in IT]`
+    (also with one `if c:` around the append -> a comprehension filter); x must not occur in IT, E or c."""
+    for holder in ast.walk(tree):
+        for fld in ("body", "orelse", "finalbody"):
+            block = getattr(holder, fld, None)
+            if not (isinstance(block, list) and block and isinstance(block[0], ast.stmt)):
+                continue
+            i = 0
+            while i + 1 < len(block):
+                a, l = block[i], block[i + 1]
+                i += 1
+                if not (isinstance(a, ast.Assign) and len(a.targets) == 1 and isinstance(a.targets[0], ast.Name)
+                        and isinstance(a.value, ast.List) and not a.value.elts):
+                    continue
+                x = a.targets[0].id
+                if not (isinstance(l, ast.For) and not l.orelse and len(l.body) == 1):
+                    continue
+                inner = l.body[0]
+                conds = []
+                if isinstance(inner, ast.If) and not inner.orelse and len(inner.body) == 1:
+                    conds, inner = [inner.test], inner.body[0]
+                if not (isinstance(inner, ast.Expr) and isinstance(inner.value, ast.Call) and isinstance(inner.value.func, ast.Attribute)
+                        and inner.value.func.attr == "append" and isinstance(inner.value.func.value, ast.Name)
+                        and inner.value.func.value.id == x and len(inner.value.args) == 1 and not inner.value.keywords):
+                    continue
+                elt = inner.value.args[0]
+                if any(isinstance(n, ast.Name) and n.id == x for part in [elt, l.iter, *conds] for n in ast.walk(part)):
+                    continue
+                comp = ast.ListComp(elt=elt, generators=[ast.comprehension(target=l.target, iter=l.iter, ifs=conds, is_async=0)])
+                new = ast.Assign(targets=[ast.Name(id=x, ctx=ast.Store())], value=comp, lineno=a.lineno, col_offset=a.col_offset)
+                ast.copy_location(comp, l)
+                block[i - 1:i + 1] = [ast.fix_missing_locations(new)]
 
 
 # --------------------------------------------------------------------------------------------- N1
@@ -154,7 +232,7 @@ class _Rename(ast.NodeTransformer):
         return node
 
 
-def _inline_call(call: ast.Call, helper: ast.FunctionDef, is_method: bool, caller_names: Set[str], emit, tag: str) -> Optional[List[ast.stmt]]:
+def _bind_actuals(call: ast.Call, helper: ast.FunctionDef, is_method: bool) -> Optional[Dict[str, ast.AST]]:
     a = helper.args
     if a.vararg or a.kwarg or a.posonlyargs or any(isinstance(x, ast.Starred) for x in call.args) \
             or any(k.arg is None for k in call.keywords):
@@ -189,6 +267,62 @@ def _inline_call(call: ast.Call, helper: ast.FunctionDef, is_method: bool, calle
             if p not in defaults:
                 return None
             actuals[p] = defaults[p]
+    return actuals
+
+
+def _pure(e: ast.AST) -> bool:
+    """an expression without effects whose value does not depend on when it is evaluated within one statement sequence of
+    the helper: names, constants, attributes, subscripts, arithmetic / comparisons and len() of such"""
+    if _simple(e):
+        return True
+    if isinstance(e, ast.Subscript):
+        return _pure(e.value) and _pure(e.slice)
+    if isinstance(e, (ast.BinOp,)):
+        return _pure(e.left) and _pure(e.right)
+    if isinstance(e, ast.UnaryOp):
+        return _pure(e.operand)
+    if isinstance(e, ast.Compare):
+        return _pure(e.left) and all(_pure(c) for c in e.comparators)
+    if isinstance(e, ast.Tuple):
+        return all(_pure(x) for x in e.elts)
+    if isinstance(e, ast.Call) and isinstance(e.func, ast.Name) and e.func.id == "len" and len(e.args) == 1 and not e.keywords:
+        return _pure(e.args[0])
+    return False
+
+
+def _helper_body(helper: ast.FunctionDef) -> List[ast.stmt]:
+    body = list(helper.body)
+    if body and isinstance(body[0], ast.Expr) and isinstance(body[0].value, ast.Constant) and isinstance(body[0].value.value, str):
+        body = body[1:]
+    return body
+
+
+def _inline_expr_call(call: ast.Call, helper: ast.FunctionDef, is_method: bool) -> Optional[ast.expr]:
+    """h(..) where the helper is `return <expr>`: the expression with the parameters substituted (actuals must be pure)"""
+    body = _helper_body(helper)
+    if len(body) != 1 or not isinstance(body[0], ast.Return) or body[0].value is None:
+        return None
+    actuals = _bind_actuals(call, helper, is_method)
+    if actuals is None or not all(_pure(v) for v in actuals.values()):
+        return None
+    e = copy.deepcopy(body[0].value)
+    if any(isinstance(n, (ast.Lambda, ast.ListComp, ast.SetComp, ast.DictComp, ast.GeneratorExp, ast.NamedExpr, ast.Yield, ast.Await))
+           for n in ast.walk(e)):
+        return None
+    e = _Rename(dict(actuals)).visit(e)
+    for n in ast.walk(e):
+        if isinstance(n, (ast.expr,)):
+            n.lineno = call.lineno
+            n.end_lineno = getattr(call, "end_lineno", call.lineno)
+            n.col_offset = call.col_offset
+            n.end_col_offset = getattr(call, "end_col_offset", call.col_offset)
+    return e
+
+
+def _inline_call(call: ast.Call, helper: ast.FunctionDef, is_method: bool, caller_names: Set[str], emit, tag: str) -> Optional[List[ast.stmt]]:
+    actuals = _bind_actuals(call, helper, is_method)
+    if actuals is None:
+        return None
     body = [copy.deepcopy(s) for s in helper.body]
     if body and isinstance(body[0], ast.Expr) and isinstance(body[0].value, ast.Constant) and isinstance(body[0].value.value, str):
         body = body[1:]
@@ -197,8 +331,13 @@ def _inline_call(call: ast.Call, helper: ast.FunctionDef, is_method: bool, calle
     stored = {n.id for s in body for n in ast.walk(s) if isinstance(n, ast.Name) and isinstance(n.ctx, ast.Store)}
     ren: Dict[str, object] = {}
     pre: List[ast.stmt] = []
+    loads: Dict[str, int] = {}
+    for s_ in body:
+        for n in ast.walk(s_):
+            if isinstance(n, ast.Name) and isinstance(n.ctx, ast.Load):
+                loads[n.id] = loads.get(n.id, 0) + 1
     for p, v in actuals.items():
-        if _simple(v) and p not in stored:
+        if p not in stored and (_simple(v) or (_pure(v) and loads.get(p, 0) <= 1)):
             ren[p] = v                      # substituted at every (load) use
         else:
             new = p if (p not in caller_names) else f"{p}__{tag}"
@@ -222,6 +361,47 @@ def _inline_call(call: ast.Call, helper: ast.FunctionDef, is_method: bool, calle
                 n.end_col_offset = 0
         ast.fix_missing_locations(s)
     return out
+
+
+class _ExprInline(ast.NodeTransformer):
+    def __init__(self, helper_for, in_cls, caller, notes, modname):
+        self.helper_for, self.in_cls, self.caller, self.notes, self.modname = helper_for, in_cls, caller, notes, modname
+
+    def visit_own(self, st: ast.stmt):
+        """the expressions of the statement itself, not of its nested statement lists"""
+        for fld, val in ast.iter_fields(st):
+            if isinstance(val, ast.expr):
+                setattr(st, fld, self.visit(val))
+            elif isinstance(val, list) and val and isinstance(val[0], ast.expr):
+                setattr(st, fld, [self.visit(v) for v in val])
+            elif isinstance(val, list) and val and isinstance(val[0], ast.withitem):
+                for w in val:
+                    w.context_expr = self.visit(w.context_expr)
+
+    def visit_Lambda(self, node):
+        return node
+
+    def visit_Call(self, node: ast.Call):
+        self.generic_visit(node)
+        helper, is_method = self.helper_for(node, self.in_cls)
+        if helper is not None and helper is not self.caller:
+            e = _inline_expr_call(node, helper, is_method)
+            if e is not None:
+                self.notes.append(f"{self.modname}: call of new helper {helper.name} (single expression) substituted in {self.caller.name} (line {node.lineno})")
+                return e
+        return node
+
+
+def _split_parallel(st: ast.Assign) -> List[ast.stmt]:
+    """`a, b = x, y` -> `a = x` ; `b = y`  when no target name occurs on the right-hand side (so the order is immaterial)"""
+    if len(st.targets) == 1 and isinstance(st.targets[0], ast.Tuple) and isinstance(st.value, ast.Tuple) \
+            and len(st.targets[0].elts) == len(st.value.elts) \
+            and not any(isinstance(x, ast.Starred) for x in st.targets[0].elts + st.value.elts):
+        tnames = {n.id for t in st.targets[0].elts for n in ast.walk(t) if isinstance(n, ast.Name)}
+        vnames = {n.id for n in ast.walk(st.value) if isinstance(n, ast.Name)}
+        if all(isinstance(t, ast.Name) for t in st.targets[0].elts) and not (tnames & vnames):
+            return [ast.Assign(targets=[t], value=v, lineno=st.lineno, col_offset=0) for t, v in zip(st.targets[0].elts, st.value.elts)]
+    return [st]
 
 
 def inline_new_helpers(tree: ast.Module, modname: str) -> List[str]:
@@ -268,6 +448,11 @@ def inline_new_helpers(tree: ast.Module, modname: str) -> List[str]:
             call = None
             if isinstance(st, (ast.Assign, ast.Expr, ast.Return)) and isinstance(st.value, ast.Call):
                 call = st.value
+            # helpers that are a single `return <expr>`: substituted wherever they are called inside this statement's own
+            # expressions (an `if` test, an argument, a right-hand side)
+            _ExprInline(helper_for, in_cls, caller, notes, modname).visit_own(st)
+            if call is not None and st.value is not call:
+                call = None
             if call is not None:
                 helper, is_method = helper_for(call, in_cls)
                 if helper is not None and helper is not caller:
@@ -277,7 +462,7 @@ def inline_new_helpers(tree: ast.Module, modname: str) -> List[str]:
                     if isinstance(st, ast.Assign):
                         def emit(e, at, _st=st):
                             v = e if e is not None else ast.Constant(value=None)
-                            return [ast.Assign(targets=copy.deepcopy(_st.targets), value=v, lineno=_st.lineno, col_offset=0)]
+                            return _split_parallel(ast.Assign(targets=copy.deepcopy(_st.targets), value=v, lineno=_st.lineno, col_offset=0))
                     elif isinstance(st, ast.Return):
                         def emit(e, at, _st=st):
                             return [ast.Return(value=e, lineno=_st.lineno, col_offset=0)]
@@ -301,6 +486,22 @@ def inline_new_helpers(tree: ast.Module, modname: str) -> List[str]:
         for sub in ast.walk(node):
             if isinstance(sub, ast.FunctionDef) and sub is not node:
                 sub.body = rewrite(sub.body, sub, cls, counter)
+    # a new helper that is no longer referenced anywhere in the module has been inlined completely: its definition is dead
+    # code for the analysis (its statements are now judged in the context of their callers)
+    for q, (node, cls) in new.items():
+        refs = 0
+        for n in ast.walk(tree):
+            if n is node:
+                continue
+            if (isinstance(n, ast.Name) and n.id == node.name) or (isinstance(n, ast.Attribute) and n.attr == node.name) \
+                    or (isinstance(n, ast.Constant) and n.value == node.name):
+                refs += 1
+        inner = sum(1 for n in ast.walk(node) if (isinstance(n, ast.Name) and n.id == node.name)
+                    or (isinstance(n, ast.Attribute) and n.attr == node.name))
+        if refs - inner == 0:
+            holder = tree.body if cls is None else next(c.body for c in tree.body if isinstance(c, ast.ClassDef) and c.name == cls)
+            holder[:] = [x for x in holder if x is not node] or [ast.Pass(lineno=node.lineno, col_offset=0)]
+            notes.append(f"{modname}: definition of completely inlined helper {q} dropped")
     return notes
 
 
@@ -309,5 +510,6 @@ def normalise(tree: ast.Module, modname: str) -> List[str]:
         return []
     notes = inline_new_helpers(tree, modname)
     _IfExpAssign().visit(tree)
+    _loop_append_to_comprehension(tree)
     ast.fix_missing_locations(tree)
     return notes
